@@ -3,4 +3,7 @@ package engines
 
 import (
 	_ "polysim/engines/e1"
+	"polysim/engines/lc"
 )
+
+func init() { lc.Finalize() }
